@@ -5,7 +5,10 @@ Stage R: TLC-generated histories (as-built parameterisation; appends of two cont
          interleaved with FLUSH / compaction / clean restart / crash between commands, so that a
          context spans memory, several L0 segments and compacted segments whose ids sort after
          newer L0 ids) are replayed; after every command REPLAY <type> FOR <ctx> and the wildcard
-         REPLAY FOR <ctx> are compared with the append order."""
+         REPLAY FOR <ctx> are compared with the append order.
+Stage N: narrowing by SINCE and RETURN: spec/ReplayGen.tla (Query!Eval) gives the expected membership of
+         REPLAY <type> FOR <ctx> SINCE t for times on and between the stored (repeated) timestamps; run in six
+         layouts with zone sizes 2-7; order must agree with the un-narrowed REPLAY, RETURN keeps the core fields."""
 import json
 import random
 
@@ -151,6 +154,126 @@ def judge(chk, beh, recs, problems, cfgdesc, stats):
     stats["complete"] += 1
 
 
+def stage_n(chk, tier, bindir):
+    """Narrowing clause: REPLAY <type> FOR <ctx> [SINCE t] [RETURN [..]] over data sets with repeated timestamps, in every
+    layout and with zone sizes that are and are not multiples of 4; expected membership from spec/ReplayGen.tla
+    (Query!Eval, SINCE inclusive); order must agree with the un-narrowed REPLAY of the same state."""
+    import shutil
+    from collections import Counter
+    from vlib import query
+    rnd = random.Random(core.seed() + 404)
+    stats = Counter()
+    kinds = {"x": "int"}
+    ctxs = ["c1", "c2", "c3"]
+    times = (10, 20, 30, 40)
+    probes = [5, 10, 15, 20, 30, 40, 45]
+    rounds = 2 if tier == "quick" else 10
+    layouts = ["mem", "l0", "l0x3", "l1", "mixed", "restart"]
+    for rd in range(rounds):
+        data = query.random_data(rnd, 26, ["x"], ctxs, times=times)
+        d = core.WORK / "qgen"
+        d.mkdir(parents=True, exist_ok=True)
+        mod = f"MCR_c04_{rd}"
+        evs = ",\n    ".join(query.tla_event(e, ["x"]) for e in data)
+        (d / f"{mod}.tla").write_text(f"---- MODULE {mod} ----\nEXTENDS ReplayGen\nDataDef == {{\n    {evs} }}\n====\n")
+        (d / f"{mod}.cfg").write_text("SPECIFICATION Spec\nCONSTANTS\n  Data <- DataDef\n  Ctxs = {" + ", ".join(f'"{c}"' for c in ctxs) + "}\n  Times = {"
+                                      + ", ".join(str(t) for t in probes) + "}\nINVARIANT Emit\nCHECK_DEADLOCK FALSE\n")
+        for f in ("Query.tla", "ReplayGen.tla"):
+            (d / f).write_text((core.SPEC / f).read_text())
+        r = core.tlc(mod, f"{mod}.cfg", workers=2, cwd=d, timeout=300)
+        if r.error or r.violated:
+            core.log(r.out[-2000:])
+            raise core.ToolError(f"ReplayGen failed: {r.error or r.violated}")
+        cases = r.printed("CASE")
+        if len(cases) != len(ctxs) * (len(probes) + 1):
+            raise core.ToolError(f"ReplayGen printed {len(cases)} cases")
+        stats["states"] += r.distinct
+        for li, layout in enumerate(layouts):
+            epz = [3, 5, 6, 4, 7, 2][(li + rd) % 6]
+            root = core.WORK / "c04" / f"n{rd}-{layout}"
+            if root.exists():
+                shutil.rmtree(root)
+            root.mkdir(parents=True)
+            cfg = {"root": str(root / "db"), "fill_factor": 1000, "event_per_zone": epz, "shards": 1, "k": 2}
+            lts = query.layout_steps(layout, data, kinds)
+            for ci, c in enumerate(cases):
+                q = c["q"]
+                since = "" if q["since"] == -1 else f' SINCE "{1_700_000_000 + q["since"]}"'
+                lts[-1].append({"op": "cmd", "text": f'REPLAY ev FOR {q["ctx"]}{since}', "tag": ["n", ci, "plain"]})
+                lts[-1].append({"op": "cmd", "text": f'REPLAY ev FOR {q["ctx"]}{since} RETURN [x]', "tag": ["n", ci, "ret"]})
+            by = {}
+            failed = None
+            for i, steps in enumerate(lts):
+                rc, obs, err = core.run_vdrive(bindir, {"config": cfg, "out": str(root / f"o{i}.ndjson"), "steps": steps}, timeout=180)
+                if rc != 0:
+                    failed = f"lifetime {i} ended with {rc}: {err[-200:]}"
+                for o in obs:
+                    t = o.get("tag")
+                    if isinstance(t, list) and t and t[0] == "n":
+                        by[(t[1], t[2])] = o
+            rep = {"layout": layout, "event_per_zone": epz, "data": data}
+            if failed:
+                chk.violation(f"narrowing stage, layout {layout}: {failed}", rep)
+                continue
+            full = {}
+            for ci, c in enumerate(cases):
+                if c["q"]["since"] == -1:
+                    o = by.get((ci, "plain"))
+                    if o and o.get("outcome") == "response" and o.get("status") == 200:
+                        cols = o.get("columns", [])
+                        full[c["q"]["ctx"]] = [row[cols.index("k")] for row in o.get("rows", [])] if o.get("rows") else []
+            ts_of = {e["k"]: e["ts"] for e in data}
+            for ci, c in enumerate(cases):
+                q = c["q"]
+                exp = sorted(c["exp"])
+                text = f'REPLAY ev FOR {q["ctx"]}' + ("" if q["since"] == -1 else f' SINCE "{1_700_000_000 + q["since"]}"')
+                where = f"{text} [{layout}, {epz} events per zone]"
+                o = by.get((ci, "plain"))
+                stats["replays"] += 1
+                if not o or o.get("outcome") != "response" or o.get("status") != 200:
+                    chk.violation(f"{where}: no result: {None if o is None else (o.get('outcome'), o.get('status'), o.get('message'))}", {**rep, "case": c})
+                    continue
+                cols = o.get("columns", [])
+                rows = o.get("rows", []) or []
+                got = [row[cols.index("k")] for row in rows] if rows else []
+                if sorted(got) != exp:
+                    chk.violation(f"{where}: returned k = {sorted(got)}, the context's events with time >= {q['since']} are {exp} "
+                                  f"(times {[ts_of[k] for k in exp]})", {**rep, "case": c})
+                    continue
+                if rows and any(row[cols.index("context_id")] != q["ctx"] or row[cols.index("event_type")] != "ev" for row in rows):
+                    chk.violation(f"{where}: a row of another context / type was returned", {**rep, "case": c})
+                    continue
+                fl = full.get(q["ctx"])
+                if fl is not None and [k for k in fl if k in set(got)] != got:
+                    chk.violation(f"{where}: order {got} differs from the order of the same events in the un-narrowed REPLAY {fl}", {**rep, "case": c})
+                    continue
+                o2 = by.get((ci, "ret"))
+                stats["replays_with_return"] += 1
+                if not o2 or o2.get("outcome") != "response" or o2.get("status") != 200:
+                    chk.violation(f"{text} RETURN [x] [{layout}]: no result", {**rep, "case": c})
+                    continue
+                cols2 = o2.get("columns", [])
+                rows2 = o2.get("rows", []) or []
+                if rows2:
+                    need = {"context_id", "event_type", "timestamp", "event_id", "x"}
+                    if not need <= set(cols2) or "k" in cols2:
+                        chk.violation(f"{text} RETURN [x] [{layout}]: columns {cols2} (core fields and x expected, k not)", {**rep, "case": c})
+                        continue
+                    ids_plain = [row[cols.index("event_id")] for row in rows]
+                    ids_ret = [row[cols2.index("event_id")] for row in rows2]
+                    if ids_plain != ids_ret:
+                        chk.violation(f"{text} RETURN [x] [{layout}]: rows differ from the replay without RETURN ({len(ids_ret)} vs {len(ids_plain)})", {**rep, "case": c})
+                        continue
+                elif rows:
+                    chk.violation(f"{text} RETURN [x] [{layout}]: no rows, the replay without RETURN has {len(rows)}", {**rep, "case": c})
+                    continue
+                if q["since"] != -1 and exp and any(ts_of[k] == q["since"] for k in exp):
+                    stats["since_on_a_timestamp_ok"] += 1
+            shutil.rmtree(root, ignore_errors=True)
+    chk.cov["narrowing"] = dict(stats)
+    return stats
+
+
 def run(tier):
     chk = core.Check(PROP, "model_checking", tier)
     bindir = core.build_harness(("vdrive",))
@@ -167,11 +290,12 @@ def run(tier):
         {"name": "c04-cap4k3", "cap": 4, "k": 3, "gen_len": 14, "n_sim": 400, "n_rep": 15 if q else 200, "gen": gen},
     ]
     stats = storage.campaign(chk, "C04", plans, TYPES, CTXS, bindir, judge, rnd)
-    chk.cov["evaluations"] = stats["replays"] + stats["wildcard_replays"]
-    chk.cov["distinct_nontrivial"] = stats["ordered_nontrivial"] + stats["known_order"]
+    sn = stage_n(chk, tier, bindir)
+    chk.cov["evaluations"] = stats["replays"] + stats["wildcard_replays"] + sn["replays"] + sn["replays_with_return"]
+    chk.cov["distinct_nontrivial"] = stats["ordered_nontrivial"] + stats["known_order"] + sn["since_on_a_timestamp_ok"]
     chk.cov["rule"] = ("one evaluation = one REPLAY (per type and wildcard) after a command of a TLC-generated history; "
                        "non-trivial = the context holds >= 2 events of the type at that point")
-    chk.assumptions += ["one client per history, so apply order = issue order", "one shard; 2 types x 2 contexts; zone sizes 1 and 2"]
+    chk.assumptions += ["one client per history, so apply order = issue order", "one shard; 2 types x 2 contexts; zone sizes 1 and 2 in the history stage; narrowing stage: 1 type x 3 contexts, zone sizes 2-7, timestamps repeated"]
     return chk.finish()
 
 
